@@ -21,5 +21,6 @@ func checkC02(c *Ctx) {
 	ruleRSReader(c, "C02.2")
 	ruleHeaderRead(c, "C02.3", "")
 	ruleAlienChunks(c, "C02.4")
+	ruleChunkLoop(c, "C02.4")
 	ruleVLQ(c, "", "C02.8", "")
 }
